@@ -52,7 +52,7 @@ def value_at(tree, r):
     return sec["opts"][r["oi"] - 1]
 
 
-def replay(verdict, exe, res, seed=0, tag="path", sigprefix="path", group=40, mutate=False):
+def replay(verdict, exe, res, seed=0, tag="path", sigprefix="path", group=40, mutate=False, ctxflags=0):
     tree = res.extra["TREE"][0]
     sl = ["schema S"]
     schema_from_tree(tree, sl)
@@ -62,7 +62,7 @@ def replay(verdict, exe, res, seed=0, tag="path", sigprefix="path", group=40, mu
     scripts, meta = [], {}
     groups = [behs[i:i + group] for i in range(0, len(behs), group)] if not mutate else [[b] for b in behs]
     for n, grp in enumerate(groups):
-        lines = list(sl) + ["init c1 S 0", "parsebuf c1 %s" % enc(text), "dump 0"]
+        lines = list(sl) + ["init c1 S %d" % ctxflags, "parsebuf c1 %s" % enc(text), "dump 0"]
         for b in grp:
             p = enc(b2s(b["path"]))
             lines += ["getopt c1 %s" % p, "getsec c1 %s" % p, "get c1 str %s 0" % p]
